@@ -24,7 +24,9 @@ fn main() {
                 .and_then(|p| std::fs::read_to_string(p).ok())
                 .and_then(|t| serde_json::from_str(&t).ok())
                 .unwrap_or_default();
-            let cfg = runner::WorkerCfg { prop, thorough, seed, cases, known };
+            let current = arg(&args, "--current");
+            let profile = arg(&args, "--profile").and_then(|p| Prop::parse(&p));
+            let cfg = runner::WorkerCfg { prop, thorough, seed, cases, known, current, profile };
             let res = if prop == Prop::C07 { gv::faults::worker(&cfg) } else { runner::worker(&cfg) };
             std::fs::write(&out, serde_json::to_string(&res).unwrap()).expect("write result");
         }
